@@ -59,7 +59,7 @@ SeqOfSet(S) == LET RECURSIVE F(_)
 AckChoices(d, n) == {SeqOfSet(T) : T \in {T \in SUBSET delivered[Opp(d)] : Cardinality(T) <= n}}
 
 Rec(d, id, name, rel, resent, acks, pa) ==
-    [dir |-> d, id |-> id, name |-> name, rel |-> rel, resent |-> resent, acks |-> acks, pa |-> pa]
+    [dir |-> d, id |-> id, name |-> name, rel |-> rel, resent |-> resent, acks |-> acks, pa |-> pa, oldest |-> 0]
 
 Init == /\ epSent = [d \in D |-> {}] /\ epRel = [d \in D |-> {}] /\ epDropped = [d \in D |-> {}]
         /\ inj = [d \in D |-> {}] /\ base = [d \in D |-> 0] /\ fwdMap = [d \in D |-> {}]
@@ -123,6 +123,25 @@ EndpointSend(d, k, rel, kind, A1, A2, disp) ==
             /\ out' = ackSender \o passOn
             /\ UNCHANGED fwdMap
 
+\* StartPingCheck carries the sender's oldest unacknowledged packet ID; the proxy rewrites it into
+\* wire numbering and lowers it to its own oldest unacknowledged injection in that direction
+\* (_rewrite_start_ping_check), otherwise the receiver would discard state the proxy still needs.
+Min2(a, b) == IF a < b THEN a ELSE b
+MinSet(S, dflt) == IF S = {} THEN dflt ELSE CHOOSE x \in S : \A y \in S : x <= y
+StartPing(d, k, oldest) ==
+    LET w == Ideal(d, k)
+        mine == {p.w : p \in {q \in pending : q.d = d}}
+        newOldest == Min2(Ideal(d, oldest), MinSet(mine, Ideal(d, oldest)))
+    IN
+    /\ k \in 1..MaxEp /\ k \notin epSent[d] /\ k <= Frontier(d) + 1 + Reorder
+    /\ oldest \in 1..k
+    /\ epSent' = [epSent EXCEPT ![d] = @ \cup {k}]
+    /\ base' = [base EXCEPT ![d] = IF w > @ THEN w ELSE @]
+    /\ fwdMap' = [fwdMap EXCEPT ![d] = @ \cup {<<k, w>>}]
+    /\ delivered' = [delivered EXCEPT ![d] = @ \cup {w}]
+    /\ out' = <<[Rec(d, w, "spc", FALSE, FALSE, <<>>, <<>>) EXCEPT !.oldest = newOldest]>>
+    /\ UNCHANGED <<epRel, epDropped, inj, ackedWire, shown, pending, done>>
+
 \* Circuit.send of a proxy-originated message (packet_id None)
 Inject(d, rel) ==
     LET new == base[d] + 1 IN
@@ -158,6 +177,7 @@ Next == \/ \E d \in D, k \in 1..MaxEp, rel \in BOOLEAN, kind \in {"msg", "pa"}, 
                 \E n \in 0..Len(A) :      \* first n appended, the rest in PacketAck blocks
                     EndpointSend(d, k, rel, kind, SubSeq(A, 1, n), SubSeq(A, n + 1, Len(A)), disp)
         \/ \E d \in D, rel \in BOOLEAN : Inject(d, rel)
+        \/ \E d \in D, k \in 1..MaxEp, o \in 1..MaxEp : StartPing(d, k, o)
         \/ \E dt \in {1, Interval} : Tick(dt)
 
 Spec == Init /\ [][Next]_vars
@@ -184,6 +204,9 @@ CompletionExact == /\ \A p \in pending : p.w \notin ackedWire[p.d] /\ p.w \in in
 \* nothing is retransmitted after completion, and retransmissions keep their ID
 ResendOnlyPending == \A i \in DOMAIN out : out[i].resent /\ out[i].name = "msg" /\ out[i].id \in inj[out[i].dir]
                         => \E p \in pending : p.d = out[i].dir /\ p.w = out[i].id /\ p.age = 0
+\* the rewritten OldestUnacked never exceeds a wire ID the proxy still waits for
+OldestCoversPending == \A i \in DOMAIN out : out[i].name = "spc" =>
+                          \A p \in pending : p.d = out[i].dir => out[i].oldest <= p.w
 \* ExactlyOnce as an action property: what a forwarded packet shows is exactly its carried,
 \* non-injected acks mapped through the *recorded* forward translation (independent of IdealOrig)
 ViaFwd(d, as) == LET keep == SelectSeq(as, LAMBDA a : a \notin inj[d])
